@@ -1,6 +1,7 @@
 package props
 
 import (
+	"go/token"
 	"fmt"
 	"strings"
 
@@ -37,13 +38,29 @@ func pruneBy(p *core.Prog, fn *ssa.Function, as []assumption) (*core.PrunedCFG, 
 			continue
 		}
 		f := p.FactOf(core.Guard{Cond: iff.Cond, Pol: true, If: iff})
+		direct := false
 		for _, a := range as {
 			if d := a.match(f); d != 0 {
+				direct = true
 				decide[b] = d
 				if d == 1 || d == -1 {
 					hits[a.name] = append(hits[a.name], iff)
 				} else {
 					implied[a.name] = append(implied[a.name], iff)
+				}
+			}
+		}
+		if !direct {
+			// a condition computed beforehand (onlyIPv4 := network == "tcp4" || ...)
+			// and tested through a variable: evaluate its definition
+			if val, known, used := evalCondUnder(p, iff.Cond, as, 0); known {
+				if val {
+					decide[b] = 2
+				} else {
+					decide[b] = -2
+				}
+				for _, a := range used {
+					implied[a] = append(implied[a], iff)
 				}
 			}
 		}
@@ -367,4 +384,68 @@ func impliedByRange(op, fop string, l, rr func(*core.Expr) bool, a, b *core.Expr
 		return -2
 	}
 	return 0
+}
+
+// evalCondUnder evaluates a boolean SSA value under the assumptions: a
+// comparison the assumptions decide, a negation, a variable written once, or
+// a φ-node of a short-circuit expression all of whose feasible edges agree. It
+// returns the names of the assumptions it used.
+func evalCondUnder(p *core.Prog, v ssa.Value, as []assumption, depth int) (val, known bool, used []string) {
+	if depth > 6 {
+		return false, false, nil
+	}
+	switch x := v.(type) {
+	case *ssa.Const:
+		if x.Value != nil && (x.Value.ExactString() == "true" || x.Value.ExactString() == "false") {
+			return x.Value.ExactString() == "true", true, nil
+		}
+	case *ssa.UnOp:
+		if x.Op == token.NOT {
+			b, ok, u := evalCondUnder(p, x.X, as, depth+1)
+			return !b, ok, u
+		}
+		if x.Op == token.MUL {
+			if cell, isCell := p.IsCellLoad(x); isCell {
+				if stores, calls := p.CellDefs(cell); len(stores) == 1 && len(calls) == 0 {
+					return evalCondUnder(p, stores[0].Val, as, depth+1)
+				}
+			}
+		}
+	case *ssa.BinOp:
+		f := p.FactOf(core.Guard{Cond: x, Pol: true})
+		for _, a := range as {
+			if d := a.match(f); d != 0 {
+				return d > 0, true, []string{a.name}
+			}
+		}
+	case *ssa.Phi:
+		var out, have bool
+		for i, e := range x.Edges {
+			feasible := true
+			var edgeUsed []string
+			for _, f := range p.EdgeFacts(x.Block().Preds[i], x.Block()) {
+				for _, a := range as {
+					if d := a.match(f); d < 0 {
+						feasible = false
+						edgeUsed = append(edgeUsed, a.name)
+					}
+				}
+			}
+			if !feasible {
+				used = append(used, edgeUsed...)
+				continue
+			}
+			b, ok, u := evalCondUnder(p, e, as, depth+1)
+			if !ok {
+				return false, false, nil
+			}
+			used = append(used, u...)
+			if have && b != out {
+				return false, false, nil
+			}
+			out, have = b, true
+		}
+		return out, have, used
+	}
+	return false, false, nil
 }
